@@ -125,6 +125,27 @@ def run(case, ctx):
         ctx.violation("is_compatible-wrong", "link %r vs its complement: allow_complement=True -> %r, False -> %r"
                       % (lt, vc, vd))
         return
+    if case["ov"] != "*":
+        # the overlap of a stand-alone link is edited in place (documented: the operations of a CIGAR
+        # can be changed): the complement follows the edit, whatever was asked before
+        er = call(ctx, "overlap[0].length += 2", lambda: setattr(l.overlap[0], "length", l.overlap[0].length + 2))
+        if er.ok:
+            lt2 = str(l)
+            ct2 = "\t".join(["L"] + S.link_complement_pos(lt2.split("\t")[1:6]) + lt2.split("\t")[6:])
+            rc2 = call(ctx, "complement (after an in-place edit)", l.complement)
+            ctx.count("complements_after_edit")
+            if not rc2.ok or str(rc2.value) != ct2:
+                ctx.violation("complement-stale-after-edit", "%r edited in place to %r: complement %r, expected %r"
+                              % (lt, lt2, str(rc2.value) if rc2.ok else rc2.cls(), ct2))
+                return
+            rcc2 = call(ctx, "complement", rc2.value.complement)
+            if not rcc2.ok or str(rcc2.value) != lt2:
+                ctx.violation("complement-not-involutive/after-edit", "%r -> %r -> %r" % (lt2, ct2, str(rcc2.value) if rcc2.ok else rcc2.cls()))
+                return
+            ic = call(ctx, "is_complement", l.is_complement, rc2.value)
+            if not ic.ok or not ic.value:
+                ctx.violation("equivalence-wrong/is_complement/after-edit", "%r vs %r" % (lt2, ct2))
+                return
     if nontrivial:
         if case.get("exh"):
             ctx.nontriv_enum()
